@@ -337,3 +337,5 @@ def replay(case):
     desc = [(p[0], p[1]) + ((p[2],) if p[0] == 'f' else ()) for p in parts]
     return (f'multipart post of {desc} with boundary {case["boundary"]!r} ({"quoted" if case["quoted"] else "unquoted"}), '
             f'max_memfile_size={case["M"]}, {case["framing"]}: {v[1]}')
+
+MANIFEST['text'] += ' Field and file names with leading / trailing blanks, a quoted boundary beginning with a blank and chunks of exactly max_memfile_size bytes are included.'
